@@ -59,6 +59,7 @@ func init() {
 			{ID: "C20.9", Desc: "once spawned the background revalidation sends its request", Run: func(c *Ctx) { ruleBackgroundAlwaysAsks(c, "C20.9") }, MinSites: 1},
 			{ID: "C20.10", Desc: "the stale answer does not depend on the state of the caller's context", Run: func(c *Ctx) { ruleForegroundIgnoresCallerContext(c, "C20.10") }, MinSites: 1},
 			{ID: "C20.11", Desc: "the one background revalidation takes effect: its 304 is recognised by comparing the validators that were sent", Run: func(c *Ctx) { ruleBackground304SelectsEntry(c, "C20.11") }, MinSites: 1},
+			{ID: "C20.12", Desc: "every stored validator is sent, so that the background 304 is recognised by the validators that were sent", Run: func(c *Ctx) { ruleEachValidatorOnItsOwn(c, "C20.12") }, MinSites: 1},
 		},
 	})
 }
